@@ -44,7 +44,7 @@ Op(A) == ops < MaxOps /\ A /\ ops' = ops + 1 /\ UNCHANGED << nextN, nextT, nextB
 WTip   == top > 0 /\ Op(UpdateTip(top))
 \* documented client protocol: the wallet learns the tip before it scans above it
 WScan  == \E from \in 1..top, n \in 1..top : from + n - 1 <= top /\ tip >= from + n - 1 /\ Op(Scan(from, n))
-WTrunc == \E req \in 0..top, to \in 0..top, fork \in BOOLEAN : to <= req /\ tip # -1 /\ to <= tip /\ Op(Truncate(req, to, fork))
+WTrunc == \E req \in 0..top, to \in 0..top, fork \in BOOLEAN : to <= req /\ tip # -1 /\ to <= tip /\ Op(Truncate(req, to, fork, to))
 
 MCNext == EnvBlock \/ WTip \/ WScan \/ WTrunc
 MCSpec == MCInit /\ [][MCNext]_mvars
